@@ -97,6 +97,12 @@ Theorem C16_component_transform_is_opentype : forall c p,
 Proof. exact comp_xform_spec. Qed.
 Print Assumptions C16_component_transform_is_opentype.
 
+(* the judge of the correspondence applies exactly this specified transform (spec_xform) *)
+Theorem C16_judge_transform_is_spec : forall c p, supported c = true ->
+  qp_eq (x_apply (spec_xform c) p) (spec_transform (sscale_of c) (c_arg1 c) (c_arg2 c) p).
+Proof. exact spec_xform_spec. Qed.
+Print Assumptions C16_judge_transform_is_spec.
+
 Theorem C16_transform_composition : forall a b p,
   qp_eq (x_apply (x_compose a b) p) (x_apply a (x_apply b p)).
 Proof. exact x_compose_apply. Qed.
@@ -181,17 +187,19 @@ Example ex_two_by_two :
   Ok [Move (0, 0)%Q; Line (100, 50)%Q; Line (100, 150)%Q; Line (0, 100)%Q; Close].
 Proof. vm_compute. reflexivity. Qed.
 
-(* the nesting limit: a self-referencing glyph and a chain of 8 composites are rejected, 7 levels pass *)
+(* the nesting limit: a self-referencing glyph is rejected, a short chain is drawn, a chain longer
+   than the limit read from the source is rejected *)
 Definition g_self : list Z := [255; 255; 0; 0; 0; 0; 0; 0; 0; 0; 0; 3; 0; 0; 0; 0; 0; 0].
 Example ex_cycle_rejected : visit [g_self] 0 = Err LimitExceeded.
 Proof. vm_compute. reflexivity. Qed.
 Definition g_ch (k : Z) : list Z := [255; 255; 0; 0; 0; 0; 0; 0; 0; 0; 0; 3; 0; k; 0; 1; 0; 0].
-Example ex_chain_7_rejected :
-  visit [g_ch 1; g_ch 2; g_ch 3; g_ch 4; g_ch 5; g_ch 6; g_ch 7; g_sq] 0 = Err LimitExceeded.
+Fixpoint chain (k : Z) (n : nat) : table :=
+  match n with O => [g_sq] | S n' => g_ch (k + 1) :: chain (k + 1) n' end.
+Example ex_chain_3_drawn :
+  visit (chain 0 3) 0 = Ok [Move (3, 0)%Q; Line (103, 0)%Q; Line (103, 100)%Q; Line (3, 100)%Q; Close].
 Proof. vm_compute. reflexivity. Qed.
-Example ex_chain_6_drawn :
-  visit [g_ch 1; g_ch 2; g_ch 3; g_ch 4; g_ch 5; g_ch 6; g_sq] 0 =
-  Ok [Move (6, 0)%Q; Line (106, 0)%Q; Line (106, 100)%Q; Line (6, 100)%Q; Close].
+Example ex_chain_beyond_limit_rejected :
+  visit (chain 0 (Z.to_nat RECURSION_LIMIT + 2)) 0 = Err LimitExceeded.
 Proof. vm_compute. reflexivity. Qed.
 
 (* the excluded class is real: with ARGS_ARE_XY_VALUES clear the arguments are ignored (the source's
